@@ -59,10 +59,27 @@ Print Assumptions C16_cache_consistent.
     service is available and the destination exists, is available and does not refuse the source; it is
     recorded as BEGIN_FAILURE only if the source is available and the destination is not usable; it is
     rejected for the source only if the source is not available *)
-Theorem C16_gate : forall f h src dst, d_cache_failed_events f = false ->
+Theorem C16_gate_after_history : forall f h src dst, d_cache_failed_events f = false ->
   let s := run_ops f st0 h in gate_sound (svcs s) src dst (ibtp_outcome s src dst) = true.
 Proof. exact gate_theorem. Qed.
+Print Assumptions C16_gate_after_history.
+
+(** ... and the same at every position inside a block: after the blocks [bs] and the transactions [pre] that
+    precede the request in its own block, the outcome recorded for the request is sound for the records stored
+    at that very position (the view is refreshed after every transaction, not at the end of the block) *)
+Theorem C16_gate : forall f bs pre src dst,
+  d_cache_failed_events f = false -> d_cache_deferred f = false ->
+  let s0 := run_ops f st0 (List.concat bs) in
+  let s := run_ops f s0 pre in
+  exists oc, r_out (step_at f (cache s0) s (OIbtp src dst)) = outcome_code oc /\ gate_sound (svcs s) src dst oc = true.
+Proof. exact gate_in_block. Qed.
 Print Assumptions C16_gate.
+
+(** with the view refreshed per transaction, a history made of blocks is the history of its transactions *)
+Theorem C16_blocks_flat : forall f, d_cache_deferred f = false ->
+  forall bs s, trace_blocks f s bs = trace f s (List.concat bs).
+Proof. exact trace_blocks_flat. Qed.
+Print Assumptions C16_blocks_flat.
 
 (** logged out stays logged out, for every flag setting and every continuation of the history *)
 Theorem C16_logout_forever : forall f h s, forb_rel s (run_ops f s h).
@@ -93,10 +110,14 @@ Theorem C16_cascade_logout_submit_partial : forall c s s',
 Proof. exact cascade_logout_submit. Qed.
 Print Assumptions C16_cascade_logout_submit_partial.
 
-(** the predicate the judge evaluates on implementation traces *)
-Theorem C16_P_b_spec : forall h tr, P_b h tr = true <-> P_from h obs0 tr.
+(** the predicate the judge evaluates on implementation traces (histories of single transactions, and of blocks:
+    inside a block the gate clause is asked only at a request followed by nothing but requests) *)
+Theorem C16_P_b_spec : forall h tr, P_b h tr = true <-> P_from (flat_mask h) obs0 tr.
 Proof. exact P_b_spec. Qed.
 Print Assumptions C16_P_b_spec.
+Theorem C16_P_b_blocks_spec : forall bs tr, P_b_blocks bs tr = true <-> P_from (hist_mask bs) obs0 tr.
+Proof. exact P_b_blocks_spec. Qed.
+Print Assumptions C16_P_b_blocks_spec.
 
 (** * Refutations on the faithful model *)
 Theorem C16_logout_reject_refuted : P_b h_logout_reject (model_trace (cfg_of_bits false false true) h_logout_reject) = false.
@@ -110,6 +131,15 @@ Proof. exact stale_cache_refuted. Qed.
 Print Assumptions C16_stale_cache_refuted.
 Theorem C16_stale_cache_fixed : P_b h_stale_cache (model_trace cfg_fixed h_stale_cache) = true.
 Proof. exact stale_cache_fixed. Qed.
+
+(** a view refreshed only at the end of the block: the request that follows the approved freeze of its destination
+    in the same block is let through *)
+Theorem C16_deferred_cache_refuted :
+  P_b_blocks b_deferred (model_trace_blocks (cfg_of_bits4 false false false true) b_deferred) = false.
+Proof. exact deferred_refuted. Qed.
+Print Assumptions C16_deferred_cache_refuted.
+Theorem C16_deferred_cache_fixed : P_b_blocks b_deferred (model_trace_blocks cfg_fixed b_deferred) = true.
+Proof. exact deferred_fixed. Qed.
 
 (** not reloading the cache is harmless for gating on its own, yet makes a restarted node differ from a running one *)
 Theorem C16_restart_divergence_refuted :
